@@ -61,6 +61,9 @@ pub struct OptAst {
     pub types: Vec<(String, bool)>,
     /// None | "third-party" | "~third-party" | "3p" | "~3p" | "first-party" | "~first-party" | "1p" | "~1p"
     pub party: Option<String>,
+    /// a second party option (options accumulate: contradictory ones leave nothing)
+    #[serde(default)]
+    pub party2: Option<String>,
     /// (domain, negated)
     pub domains: Vec<(String, bool)>,
     pub important: bool,
@@ -85,6 +88,9 @@ impl OptAst {
             o.push(format!("{}{}", if *neg { "~" } else { "" }, t));
         }
         if let Some(p) = &self.party {
+            o.push(p.clone());
+        }
+        if let Some(p) = &self.party2 {
             o.push(p.clone());
         }
         if !self.domains.is_empty() {
@@ -136,12 +142,13 @@ impl OptAst {
     }
 
     pub fn party_applies(&self, r: &ReqFacts) -> bool {
-        match self.party.as_deref() {
+        // every party option restricts on its own; two contradictory ones leave no request
+        [&self.party, &self.party2].iter().all(|p| match p.as_deref() {
             None => true,
             Some("third-party") | Some("3p") | Some("~first-party") | Some("~1p") => r.third_party,
             Some("~third-party") | Some("~3p") | Some("first-party") | Some("1p") => !r.third_party,
             Some(_) => true,
-        }
+        })
     }
 
     pub fn domains_apply(&self, r: &ReqFacts) -> bool {
